@@ -165,6 +165,34 @@ def build(backend, tier):
     mm2 = [spec("lin", ["a", "b"], [f"double result = obj_x{arrow}pt() * a + b;"], method_object="obj_x")] + m0
     add("method2:column", per.format("j.lin(j.eta(), 2)"), mm2, {"__method__lin": lambda self, a_, b_: self.pt() * a_ + b_})
     add("method2:with-method0-argument", per.format("j.lin(j.twicept(), j.eta())"), mm2, {"__method__lin": lambda self, a_, b_: self.pt() * a_ + b_, "__method__twicept": lambda self: self.pt() * 2})
+    # ---- a method is bound to its object whatever expression yields the object: First(), an index, a step fused by func_adl
+    tw = {"__method__twicept": lambda self: self.pt() * 2, "__method__scaled": lambda self, v: self.pt() * v}
+    recv = {
+        "first": f"ds.Select(lambda e: {S}.First().twicept())",
+        "first-with-arg": f"ds.Select(lambda e: {S}.First().scaled(2))",
+        "first-then-select": f"ds.Select(lambda e: {S}.First()).Select(lambda j: j.twicept())",
+        "first-then-select-arg": f"ds.Select(lambda e: {S}.First()).Select(lambda j: j.scaled(j.eta()))",
+        "index0": f"ds.Select(lambda e: {S}[0].twicept())",
+        "index1-with-arg": f"ds.Select(lambda e: {S}[1].scaled(2))",
+        "where-first": f"ds.Select(lambda e: {S}.Where(lambda j: j.pt() > 1).First().twicept())",
+        "tuple-with-count": f"ds.Select(lambda e: ({S}.Count(), {S}[0].twicept()))",
+        "obj-parts-first": per.format("j.parts().First().twicept()"),
+        "obj-parts-index-arg": per.format("j.parts()[0].scaled(j.eta())"),
+        "in-arith": f"ds.Select(lambda e: {S}[0].twicept() * 2 + 1)",
+        "in-where": f"ds.Where(lambda e: {S}.First().twicept() > 1).Select(lambda e: {S}.Count())",
+    }
+    for k, q in recv.items():
+        add(f"receiver:{k}", q, mmd + m0, tw)
+    if backend == "atlas":
+        add("receiver:builtin-index", f"ds.Select(lambda e: {S}[0].getAttributeFloat('w'))", [], {})
+        add("receiver:builtin-first-then-select", f"ds.Select(lambda e: {S}.First()).Select(lambda j: j.getAttributeFloat('w'))", [], {})
+        add("receiver:builtin-vector-index", f"ds.Select(lambda e: {S}[0].getAttributeVectorFloat('x').Count())", [], {})
+    # ---- a function the query supplies under the name of a documented math function: the SUPPLIED code is what a call means
+    for mn in ("sin", "sqrt", "abs", "fabs", "floor", "exp"):
+        add(f"own-math-name:{mn}", per.format(f"{mn}(j.eta())"), [spec(mn, ["x"], ["double result = x * 8 + 3;"])], {mn: lambda v: v * 8 + 3})
+        add(f"own-math-name-arith:{mn}", per.format(f"({mn}(j.eta()) + cos(j.pt()) * 0)"), [spec(mn, ["x"], ["double result = x * 8 + 3;"])], {mn: lambda v: v * 8 + 3, "cos": lambda v: 1.0})
+    for mn in ("hypot", "pow", "fmod", "atan2", "fmax"):
+        add(f"own-math-name:{mn}", per.format(f"{mn}(j.eta(), j.pt())"), [spec(mn, ["x", "y"], ["double result = x * 8 + y;"])], {mn: lambda u, v: u * 8 + v})
     f0 = [spec("seven", [], ["double result = 7;"])]
     add("fn0:column", per.format("(seven() + j.pt())"), f0, {"seven": lambda: 7})
     add("method:as-function", per.format("scaled(j, 2)"), mmd, {}, expect="refuse")
